@@ -59,6 +59,13 @@ def kv_run(ctx, prop, design_props, what):
                           consts={"MaxOps": 7, "Export": "FALSE", "Batch": 1, "AllOrders": "TRUE",
                                   "Sizes": "{40, 60}", "MaxCf": 6, "Keys": '{"a", "b"}'},
                           name="design-partial-compaction", timeout=1800)
+    if prop == "C11":
+        # a receiver of transferred tables that cannot store every entry (smaller tables): the import fails and the sender
+        # keeps its table; with the import as found (D35, repaired) the table is dropped although entries have not arrived
+        vlib.design_check(ctx, "KVStore", "KVStore_design.cfg", consts={"MaxOps": 4 if quick else 5, "Export": "FALSE", "DstMax": 90},
+                          name="design-refusing-receiver", timeout=1800)
+        vlib.design_expect_violation(ctx, "KVStore", "KVStore_design.cfg", "TransferSafe", "D35 (the import before the repair)",
+                                     consts={"MaxOps": 4, "Export": "FALSE", "DstMax": 90, "FixD35": "FALSE"}, name="design-import-as-found")
     out = ctx.dir("drv")
     behfile = os.path.join(out, "beh.jsonl")
     with open(behfile, "w") as f:
